@@ -1089,8 +1089,19 @@ fn hist_val(rng: &mut Rng, t: &Ty) -> V {
         Ty::List => V::List((0..rng.below(4)).map(|_| V::Int(rng.range(0, 9) as i128)).collect()),
         Ty::Sat(1) => V::List((0..1 + rng.below(3)).map(|_| V::Int(rng.range(0, 9) as i128)).collect()),
         Ty::Dict => if rng.chance(1, 2) { V::Dict(vec![]) } else { V::Dict(vec![(V::Str("j".into()), V::Int(2))]) },
-        Ty::Struct(s) => V::Inst(if rng.chance(1, 5) { 0 } else { *s }, (0..if rng.chance(1, 5) { 1 } else { STRUCT_ARITY[*s] }).map(|_| V::Int(1)).collect()),
-        _ => gen_val(rng, 1),
+        Ty::Struct(s) => {
+            let sid = if rng.chance(1, 5) { 0 } else { *s };
+            V::Inst(sid, (0..STRUCT_ARITY[sid]).map(|_| V::Int(rng.range(1, 3) as i128)).collect())
+        }
+        _ => match rng.below(7) {
+            0 => V::Null,
+            1 => V::Int(rng.range(-3, 9) as i128),
+            2 => V::Str("w".into()),
+            3 => V::Bytes(vec![1, 2]),
+            4 => V::Vector(vec![V::Int(1), V::Rat(1, 2)]),
+            5 => V::Rat(5, 2),
+            _ => V::List(vec![V::Int(4), V::Str("a".into())]),
+        },
     }
 }
 /// a target: a variable, or an index path into it when it holds a list / dict
